@@ -197,6 +197,10 @@ pub fn gen_graph(rng: &mut SplitMix, thorough: bool) -> GraphSpec {
         let w_uniform = ((d as f64 * l as f64 / 2.0 + delta) / ne as f64).max(0.05);
         let massive_mode = rng.below(4);
         let tiny_mode = rng.chance(1, 12);
+        // heavy graphs: overall degree of divergence beyond the range of the gamma
+        // function (the normalisation overflows; the accept/reject decision and the
+        // J values must not care)
+        let heavy_mode = ne >= 9 && rng.chance(1, 3);
         let mut es: Vec<EdgeSpec> = edges
             .iter()
             .map(|&(a, b)| {
@@ -212,7 +216,9 @@ pub fn gen_graph(rng: &mut SplitMix, thorough: bool) -> GraphSpec {
                     _ => (w_uniform + *rng.pick(&[0.0, 0.0, 0.1, -0.1, 0.3])).max(0.05),
                 };
                 // occasionally a very small (but positive, finite) weight: huge J values
-                let w = if tiny_mode && rng.chance(1, 2) {
+                let w = if heavy_mode {
+                    *rng.pick(&[20.0, 19.5, 19.0, 18.9, 20.0])
+                } else if tiny_mode && rng.chance(1, 2) {
                     *rng.pick(&[1e-6, 9.5367431640625e-7, 3e-5, 2.44140625e-4])
                 } else {
                     w
